@@ -695,7 +695,7 @@ func init() {
 				runtime.ReadMemStats(&m0)
 			}
 			if sc.Kind == "post" {
-				po := env.oncePost(cs, sc.Post)
+				po := env.oncePost(cs, sc.Post, sc.Side)
 				agg := sideObs{Outcome: "ok", Stage: "post"}
 				for _, c := range po.Calls {
 					if c.RetMs > agg.ElapsedMs {
@@ -707,7 +707,8 @@ func init() {
 				}
 				res[i] = map[string]any{"ev": "Run", "sid": sc.Sid, "case": sc.Case, "side": sc.Side, "msg": sc.Msg, "mode": sc.Mode, "kind": "post",
 					"applied": po.Ready, "fit": true, "orig": []int{}, "orig_len": 0, "orig_sum": 0, "mut_len": 0, "mut_sum": 0,
-					"client": sideEv(agg, sideObs{}), "server": sideEv(sideObs{Outcome: "ok"}, sideObs{}), "released": false, "prime_err": "",
+					"client": sideEv(map[bool]sideObs{true: agg, false: {Outcome: "ok"}}[sc.Side != "c"], sideObs{}),
+					"server": sideEv(map[bool]sideObs{true: agg, false: {Outcome: "ok"}}[sc.Side == "c"], sideObs{}), "released": false, "prime_err": "",
 					"deadline_ms": po.Deadline, "alloc_kb": -1, "serial": req.Serial, "nc": 0, "ns": 0,
 					"ready": po.Ready, "sent": po.Sent, "sent_err": po.SentErr, "transport": sc.Post.Transport, "calls": po.Calls, "post_err": po.Err}
 				return
